@@ -117,8 +117,15 @@ class Unit:
                 return self.coerce(coq_str(v), 'string', want)
             raise Untranslatable(f'constant {v!r}')
         if isinstance(e, ast.Attribute):
+            key = ast.unparse(e)
+            if key in env:
+                t, ty = env[key]
+                return self.coerce(t, ty, want)
+            if key in self.spec.get('ctx_exprs', {}):
+                t, ty = self.spec['ctx_exprs'][key]
+                return self.coerce(t, ty, want)
             if isinstance(e.value, ast.Name) and e.value.id == 'self':
-                if e.attr not in self.spec['attrs']:
+                if e.attr not in self.spec['attrs'] or self.spec['attrs'][e.attr] == 'STATE':
                     raise Untranslatable(f'self.{e.attr}')
                 t, ty = self.spec['attrs'][e.attr]
                 return self.coerce(t, ty, want)
@@ -159,6 +166,12 @@ class Unit:
             if mty == 'pipeline' and kty == 'string':
                 return self.coerce(f'(assoc_get {k} {m})', 'option (list step)', want)
             raise Untranslatable('subscript types')
+        if isinstance(e, ast.Call) and isinstance(e.func, ast.Name) and e.func.id == 'isinstance' \
+                and len(e.args) == 2 and isinstance(e.args[1], ast.Name) and not e.keywords:
+            t, ty = self.expr(e.args[0], env)
+            if ty != 'exn':
+                raise Untranslatable('isinstance on a non-exception')
+            return self.coerce(f'(isinst errors_classes {t} [{coq_str(e.args[1].id)}])', 'bool', want)
         if isinstance(e, ast.Call) and isinstance(e.func, ast.Name) and e.func.id in self.spec['ctors'] \
                 and len(e.args) == 1 and not e.keywords:
             argty, resty = self.spec['ctors'][e.func.id]
@@ -200,13 +213,20 @@ class Unit:
             if ty.startswith('option '):
                 some_branch = isinstance(test.ops[0], ast.IsNot) != neg
                 return (x, strip_option(ty), None, some_branch)
-        if isinstance(test, ast.Name) and test.id in env and env[test.id][1].startswith('option '):
-            x = test.id
+        if isinstance(test, ast.Attribute) and isinstance(test.value, ast.Name) and test.value.id == 'self' \
+                and ast.unparse(test) not in env and test.attr in self.spec['attrs'] \
+                and self.spec['attrs'][test.attr] != 'STATE' and self.spec['attrs'][test.attr][1].startswith('option '):
+            env[ast.unparse(test)] = self.spec['attrs'][test.attr]     # now an ordinary (narrowable) binding
+        if isinstance(test, (ast.Name, ast.Attribute)) and ast.unparse(test) in env \
+                and env[ast.unparse(test)][1].startswith('option '):
+            x = ast.unparse(test)
             inner = strip_option(env[x][1])
             if inner == 'string':
                 guard = 'negb (String.eqb {p} "")'
             elif inner.startswith('list'):
                 guard = 'match {p} with [] => false | _ => true end'
+            elif inner in self.spec.get('always_truthy', ()):
+                guard = None
             else:
                 raise Untranslatable(f'truthiness of option {inner}')
             return (x, inner, guard, not neg)
@@ -240,6 +260,11 @@ class Unit:
                 if cur is None:
                     raise Untranslatable('bare raise outside a handler')
                 return f'({cur}, {s})'
+            if isinstance(st.exc, ast.Name) and st.exc.id in env and env[st.exc.id][1] == 'exn' and st.cause is None:
+                return f'({env[st.exc.id][0]}, {s})'
+            if isinstance(st.exc, ast.Name) and st.exc.id == 'HandledError' and isinstance(st.cause, ast.Name) \
+                    and st.cause.id in env and env[st.cause.id][1] == 'exn':
+                return f'(raise_handled_from {env[st.cause.id][0]} {s})'
             if isinstance(st.exc, ast.Call) and isinstance(st.exc.func, ast.Name) and len(st.exc.args) == 1 \
                     and isinstance(st.exc.args[0], ast.Constant) and isinstance(st.exc.args[0].value, str) \
                     and st.cause is None:
@@ -247,6 +272,14 @@ class Unit:
             raise Untranslatable('raise form')
         if isinstance(st, ast.AugAssign) and isinstance(st.target, ast.Name) and st.target.id not in self.live:
             return cont(s, env)
+        if isinstance(st, ast.Assign) and len(st.targets) == 1 and isinstance(st.targets[0], ast.Name) \
+                and mode[0] == 'eff' and self.eff_value(st.value) is not None:
+            x = st.targets[0].id
+            attr, fn, ty = self.eff_value(st.value)
+            a, _ = self.expr(attr, env)
+            nx = self.new(x + '_')
+            self.assign_log.append(x)
+            return f'(lift ({fn} {s} {a}) {s} (fun {nx} => {cont(s, {**env, x: (nx, ty)})}))'
         if isinstance(st, ast.Assign) and len(st.targets) == 1 and isinstance(st.targets[0], ast.Name):
             x = st.targets[0].id
             if x not in self.live:
@@ -255,11 +288,13 @@ class Unit:
             nx = self.new(x + '_')
             self.assign_log.append(x)
             return f'(let {nx} := {t} in {cont(s, {**env, x: (nx, ty)})})'
+        if isinstance(st, ast.If) and self.droppable(st.body) and self.droppable(st.orelse):
+            return cont(s, env)          # both branches only log
         if isinstance(st, ast.If):
             nar = self.narrowing(st.test, env)
             if nar is not None:
                 x, inner, guard, some_branch = nar
-                p = self.new(x + '_')
+                p = self.new(x.replace('.', '_') + '_')
                 env_some = {**env, x: (p, inner)}
                 body_some, body_none = (st.body, st.orelse) if some_branch else (st.orelse, st.body)
                 a = self.block(body_some + rest, s, env_some, cur, k, mode)
@@ -288,6 +323,15 @@ class Unit:
             body = self.protected(st.body, s1, {**env, st.target.id: (x, ty[5:].strip('()') if ty[5:].startswith('(') else ty[5:])}, cur)
             return (f'(andthen (for_each {xs} (fun {x} {s1} => {body}) {s}) '
                     f'(fun {s2} => {cont(s2, env)}))')
+        if isinstance(st, ast.Try) and st.finalbody:
+            inner_try = ast.Try(body=st.body, handlers=st.handlers, orelse=st.orelse, finalbody=[])
+            inner = self.protected([inner_try], s, env, cur)
+            o, s1, s2 = self.new('o'), self.new('s'), self.new('s')
+            fin = self.protected(st.finalbody, s1, env, cur)
+            r = self.new('r')
+            return (f'(match {inner} with ({o}, {s1}) => match {fin} with '
+                    f'| (OOk, {s2}) => match {o} with OOk => {cont(s2, env)} | _ => ({o}, {s2}) end '
+                    f'| {r} => {r} end end)')
         if isinstance(st, ast.Try) and not st.finalbody:
             s1 = self.new('s')
             body = self.protected(st.body, s, env, cur)
@@ -309,6 +353,19 @@ class Unit:
             return (f'(match {body} with | (OOk, {s1}) => {ok} | (OUnsup, {s1}) => (OUnsup, {s1}) '
                     f'| ({ev}, {s1}) => {arms} end)')
         raise Untranslatable(f'statement {type(st).__name__}')
+
+    @staticmethod
+    def droppable(stmts):
+        return all(is_doc(st) or is_logging(st) or isinstance(st, (ast.Assert, ast.Pass)) for st in stmts)
+
+    def eff_value(self, e):
+        """`context.get_formatted_as_type(self.X, out_type=bool)` -> (self.X node, model function, type)"""
+        if isinstance(e, ast.Call) and isinstance(e.func, ast.Attribute) and isinstance(e.func.value, ast.Name) \
+                and e.func.value.id == 'context' and e.func.attr == 'get_formatted_as_type' and len(e.args) == 1 \
+                and len(e.keywords) == 1 and e.keywords[0].arg == 'out_type' \
+                and isinstance(e.keywords[0].value, ast.Name) and e.keywords[0].value.id == 'bool':
+            return (e.args[0], 'as_bool', 'bool')
+        return None
 
     @staticmethod
     def drop(env2, name, outer):
@@ -344,9 +401,9 @@ class Unit:
         if isinstance(f.value, ast.Name) and f.value.id == 'self':
             name = f.attr
             sig = self.spec['methods'].get(name)
-            if sig is None or sig['kind'] != 'eff':
+            if sig is None or sig['kind'] not in ('eff', 'prim'):
                 raise Untranslatable(f'call self.{name}')
-            if name in self.defined:
+            if sig['kind'] == 'prim' or name in self.defined:
                 target, params = sig['coq'], sig['params']
             else:
                 if 'rec' not in sig:
@@ -360,32 +417,48 @@ class Unit:
         if key not in self.spec['obj_methods']:
             raise Untranslatable(f'method {f.attr} on {oty}')
         prim, params = self.spec['obj_methods'][key]
-        args = []
-        for a in c.args:
-            if isinstance(a, ast.Attribute) and isinstance(a.value, ast.Name) and a.value.id == 'self' \
-                    and self.spec['attrs'].get(a.attr) == 'STATE':
-                continue
-            raise Untranslatable('argument of an object method')
-        return f'({prim} {obj} {s})'
+        args = self.bind_args(c, params, {}, env)
+        objarg = '' if oty in self.spec.get('unit_objects', ()) else f' {obj}'
+        return f'({prim}{objarg} {" ".join(args)} {s})' if args else f'({prim}{objarg} {s})'
+
+    def is_context_arg(self, a):
+        if isinstance(a, ast.Name) and a.id == 'context':
+            return True
+        return (isinstance(a, ast.Attribute) and isinstance(a.value, ast.Name) and a.value.id == 'self'
+                and self.spec['attrs'].get(a.attr) == 'STATE')
 
     def bind_args(self, c, params, defaults, env):
+        """params: [(name, type)]; type '@callback:<m>' = must be exactly self.<m> (checked, not passed);
+        the context / self.context argument is the state and is not passed."""
         vals = {}
-        for (pn, pty), a in zip(params, c.args):
-            vals[pn] = self.expr(a, env, pty)[0]
-        if len(c.args) > len(params):
+        pos = [a for a in c.args if not self.is_context_arg(a)]
+        if len(pos) > len(params):
             raise Untranslatable('too many arguments')
+        binds = list(zip(params, pos))
         for kw in c.keywords:
+            if kw.arg == 'context' and self.is_context_arg(kw.value):
+                continue
             pty = dict(params).get(kw.arg)
             if pty is None:
                 raise Untranslatable(f'keyword {kw.arg}')
-            vals[kw.arg] = self.expr(kw.value, env, pty)[0]
+            binds.append(((kw.arg, pty), kw.value))
+        for (pn, pty), a in binds:
+            if pty.startswith('@callback:'):
+                want = pty.split(':', 1)[1]
+                if not (isinstance(a, ast.Attribute) and isinstance(a.value, ast.Name) and a.value.id == 'self'
+                        and a.attr == want):
+                    raise Untranslatable(f'callback argument is not self.{want}')
+                vals[pn] = None
+            else:
+                vals[pn] = self.expr(a, env, pty)[0]
         out = []
         for pn, pty in params:
             if pn not in vals:
                 if pn not in defaults:
                     raise Untranslatable(f'missing argument {pn}')
                 vals[pn] = defaults[pn]
-            out.append(vals[pn])
+            if vals[pn] is not None:
+                out.append(vals[pn])
         return out
 
     # ------------------------------------------------------------------ methods
@@ -395,7 +468,7 @@ class Unit:
         head_args = ' '.join(f'({pn} : {pty})' for pn, pty in params)
         try:
             fn = find_function(tree, f"{self.spec['cls']}.{name}")
-            got = [a.arg for a in fn.args.args if a.arg != 'self']
+            got = [a.arg for a in fn.args.args if a.arg not in ('self', 'context')]
             if got != [pn for pn, _ in params]:
                 raise Untranslatable(f'signature changed: {got}')
             # python defaults must agree with the table
@@ -480,7 +553,45 @@ STEPSRUNNER = {
     'order': ['get_pipeline_steps', 'run_pipeline_steps', 'run_step_group', 'run_failure_step_group',
               'run_step_groups'],
 }
-UNITS = [STEPSRUNNER]
+RG_PARAMS = [('groups', 'list val'), ('success_group', 'option string'), ('failure_group', 'option string')]
+STEP = {
+    'file': 'pypyr/dsl.py', 'cls': 'Step', 'section': 'GenStep',
+    'variables': [
+        ('sp', 'step', 'self: the step definition (decorator values as written in the pipeline)'),
+        ('prim_run_step_function', 'st -> R', 'self.run_step_function(context): the step body'),
+        ('rec_run_step_groups', 'list val -> option string -> option string -> st -> R',
+         'context.current_pipeline.steps_runner.run_step_groups (re-entered on Call)'),
+        ('prim_reset_context_counters', 'outcome -> st -> R', 'self.reset_context_counters(context, call)'),
+        ('prim_retry_loop', 'rcfg -> st -> R', 'self.retry_decorator.retry_loop(context, self.invoke_step)'),
+        ('prim_save_error', 'outcome -> bool -> st -> R', 'self.save_error(context, exception, swallowed)'),
+        ('prim_foreach_loop', 'st -> R', 'self.foreach_loop(context)'),
+    ],
+    'attrs': {'run_me': ('(s_run sp)', 'val'), 'skip_me': ('(s_skip sp)', 'val'),
+              'swallow_me': ('(s_swallow sp)', 'val'), 'retry_decorator': ('(s_retry sp)', 'option rcfg'),
+              'foreach_items': ('(has_foreach sp)', 'bool')},
+    'always_truthy': ('rcfg',),
+    'ctx_exprs': {'context.current_pipeline.steps_runner': ('tt', 'steps_runner')},
+    'unit_objects': ('steps_runner',),
+    'fields': {('exn', 'groups'): ('exn_groups', 'list val'),
+               ('exn', 'success_group'): ('exn_success_group', 'option string'),
+               ('exn', 'failure_group'): ('exn_failure_group', 'option string'),
+               ('exn', '__cause__'): ('exn_cause', 'exn')},
+    'ctors': {},
+    'obj_methods': {('steps_runner', 'run_step_groups'): ('rec_run_step_groups', RG_PARAMS),
+                    ('rcfg', 'retry_loop'): ('prim_retry_loop', [('step_method', '@callback:invoke_step')])},
+    'methods': {
+        'run_step_function': {'kind': 'prim', 'coq': 'prim_run_step_function', 'params': []},
+        'reset_context_counters': {'kind': 'prim', 'coq': 'prim_reset_context_counters', 'params': [('call', 'exn')]},
+        'save_error': {'kind': 'prim', 'coq': 'prim_save_error',
+                       'params': [('exception', 'exn'), ('swallowed', 'bool')]},
+        'foreach_loop': {'kind': 'prim', 'coq': 'prim_foreach_loop', 'params': []},
+        'invoke_step': {'kind': 'eff', 'coq': 'gen_invoke_step', 'params': []},
+        'run_conditional_decorators': {'kind': 'eff', 'coq': 'gen_run_conditional_decorators', 'params': []},
+        'run_foreach_or_conditional': {'kind': 'eff', 'coq': 'gen_run_foreach_or_conditional', 'params': []},
+    },
+    'order': ['invoke_step', 'run_conditional_decorators', 'run_foreach_or_conditional'],
+}
+UNITS = [STEPSRUNNER, STEP]
 
 
 def pure_call_hook(unit):
